@@ -320,8 +320,12 @@ func gsub(t *rt.Thread, c *rt.GoCont) (rt.Cont, error) {
 	// copying the string until one substitution has actually taken place.  This
 	// is achieved by keeping the variable sj the same until bytes are written
 	// in the string builder.
-	for ; matchCount != n; matchCount++ {
-		captures, usedCPU := pat.Match(string(s), si, t.UnusedCPU())
+	// An anchored pattern can only match at the start of the string.
+	anchored := pat.StartAnchored()
+	substituted := false
+	for matchCount != n {
+		// MatchFromStart only tries the position si if the pattern is anchored
+		captures, usedCPU := pat.MatchFromStart(string(s), si, t.UnusedCPU())
 		t.RequireCPU(usedCPU)
 		if len(captures) == 0 {
 			break
@@ -329,6 +333,8 @@ func gsub(t *rt.Thread, c *rt.GoCont) (rt.Cont, error) {
 		gc := captures[0]
 		start, end := gc.Start(), gc.End()
 		if allowEmpty || start != si || end != si {
+			// Only matches that are not skipped count
+			matchCount++
 			sub, same, err := replF(captures)
 			if err != nil {
 				return nil, err
@@ -340,7 +346,11 @@ func gsub(t *rt.Thread, c *rt.GoCont) (rt.Cont, error) {
 				_, _ = sb.WriteString(s[sj:start])
 				_, _ = sb.WriteString(sub)
 				sj = end
+				substituted = true
 			}
+		}
+		if anchored {
+			break
 		}
 		allowEmpty = start >= end
 		if allowEmpty {
@@ -351,7 +361,7 @@ func gsub(t *rt.Thread, c *rt.GoCont) (rt.Cont, error) {
 	}
 	var res rt.Value
 	switch {
-	case sb.Len() == 0:
+	case !substituted:
 		// We return the input string to save an allocation.
 		res = c.Arg(0)
 	case sj < len(s):
